@@ -13,6 +13,7 @@ partial def loop (h : IO.FS.Stream) (out : IO.FS.Stream) (st : Drv.State) : IO U
   let toks := (line.trimAscii.toString.splitOn " ").filter (· ≠ "")
   let (st', ans) := Drv.dispatch st toks
   out.putStrLn ans
+  out.flush
   loop h out st'
 
 def main : IO Unit := do
